@@ -203,3 +203,56 @@ func allPerms(n int) [][]int {
 	}
 	return out
 }
+
+// replaceSigAlg rewrites both copies of the signature AlgorithmIdentifier of a certificate (tbsCertificate.signature
+// and the outer signatureAlgorithm) and, when sig is non-nil, the signature value.
+func replaceSigAlg(der []byte, alg []byte, sig []byte) ([]byte, error) {
+	top, err := parseTLVs(der)
+	if err != nil || len(top) != 1 || top[0].tag != 0x30 {
+		return nil, errors.New("not a certificate")
+	}
+	parts, err := parseTLVs(top[0].content)
+	if err != nil || len(parts) != 3 {
+		return nil, errors.New("certificate is not a 3-element sequence")
+	}
+	tbsItems, err := parseTLVs(parts[0].content)
+	if err != nil {
+		return nil, err
+	}
+	idx := 1 // serial, signature, ...
+	if len(tbsItems) > 0 && tbsItems[0].tag == 0xA0 {
+		idx = 2
+	}
+	if len(tbsItems) <= idx || tbsItems[idx].tag != 0x30 {
+		return nil, errors.New("no signature algorithm in tbs")
+	}
+	var newTBS [][]byte
+	for i, it := range tbsItems {
+		if i == idx {
+			newTBS = append(newTBS, alg)
+		} else {
+			newTBS = append(newTBS, it.full)
+		}
+	}
+	sigTLV := parts[2].full
+	if sig != nil {
+		sigTLV = encTLV(0x03, append([]byte{0}, sig...))
+	}
+	return encTLV(0x30, concat(encTLV(0x30, concat(newTBS...)), alg, sigTLV)), nil
+}
+
+// signature algorithm identifiers (DER) for substitution
+var sigAlgs = []struct {
+	name string
+	der  []byte
+}{
+	{"sha256WithRSAEncryption", []byte{0x30, 0x0d, 0x06, 0x09, 0x2a, 0x86, 0x48, 0x86, 0xf7, 0x0d, 0x01, 0x01, 0x0b, 0x05, 0x00}},
+	{"sha1WithRSAEncryption", []byte{0x30, 0x0d, 0x06, 0x09, 0x2a, 0x86, 0x48, 0x86, 0xf7, 0x0d, 0x01, 0x01, 0x05, 0x05, 0x00}},
+	{"md5WithRSAEncryption", []byte{0x30, 0x0d, 0x06, 0x09, 0x2a, 0x86, 0x48, 0x86, 0xf7, 0x0d, 0x01, 0x01, 0x04, 0x05, 0x00}},
+	{"ecdsa-with-SHA256", []byte{0x30, 0x0a, 0x06, 0x08, 0x2a, 0x86, 0x48, 0xce, 0x3d, 0x04, 0x03, 0x02}},
+	{"ecdsa-with-SHA1", []byte{0x30, 0x09, 0x06, 0x07, 0x2a, 0x86, 0x48, 0xce, 0x3d, 0x04, 0x01}},
+	{"dsa-with-sha1", []byte{0x30, 0x09, 0x06, 0x07, 0x2a, 0x86, 0x48, 0xce, 0x38, 0x04, 0x03}},
+	{"dsa-with-sha256", []byte{0x30, 0x0b, 0x06, 0x09, 0x60, 0x86, 0x48, 0x01, 0x65, 0x03, 0x04, 0x03, 0x02}},
+	{"ed25519", []byte{0x30, 0x05, 0x06, 0x03, 0x2b, 0x65, 0x70}},
+	{"unknown-algorithm", []byte{0x30, 0x0a, 0x06, 0x08, 0x2b, 0x06, 0x01, 0x04, 0x01, 0x83, 0xb2, 0x03}},
+}
